@@ -17,8 +17,20 @@ for "an incoming HTLC is handed to an outgoing channel at most once, and is not 
   (g) TLC-generated schedules and a directed one replayed on a real, started Switch (real forwarder,
       circuit map, mailboxes, forwarding package; harness/htlcswitch/c07_switch_test.go),
   (h) TLC trace validation (SwitchForwardTrace) + negative controls.
+spec/CircuitMap/SwitchResponse: the switch-level RESPONSE path (off-chain settle/fails from the outgoing
+channel's forwarding package incl. replays, on-chain resolution messages - ProcessContractResolution, the
+resolution-message store, reforwardResponses / reforwardResolutions at start-up -, closeCircuit's closing
+arbitration, the mail orchestrator's live index and unclaimed queue across AddLink / RemoveLink, the incoming
+link's mailbox, commit and acks, the ack ticker, cleanClosedChannels' purge with its resolution-message
+exception), judged for "at most one settle-or-fail per HTLC is delivered back to the incoming channel, and a
+response that was durably accepted is not lost across restarts and link flaps":
+  (i) exhaustive TLC + the two defect witnesses (reforwardResolutions looks the circuit up in the wrong
+      index / BindLiveShortChanID keeps the unclaimed queue),
+  (j) TLC-generated schedules replayed on a real, started Switch (harness/htlcswitch/c07_resp_test.go),
+  (k) TLC trace validation (SwitchResponseTrace) + negative controls.
 """
 import copy
+import glob
 import json
 import os
 import shutil
@@ -28,7 +40,7 @@ from ..core import Inconclusive
 
 SPEC = os.path.join(core.VERIF, "spec", "CircuitMap")
 LEVEL = "model_checking"
-HARNESS = ["htlcswitch/c07_test.go", "htlcswitch/c07_switch_test.go"]
+HARNESS = ["htlcswitch/c07_test.go", "htlcswitch/c07_switch_test.go", "htlcswitch/c07_resp_test.go"]
 INVS = ("AtMostOnceForward AtMostOneResponse RestartExact OpenedConsistent OpenedSubsetPending "
         "OneRecordPerKey OneCircuitPerOut MemDiskAgree ClosedSubset")
 
@@ -216,6 +228,8 @@ def replay(ck):
     meta = json.load(open(os.path.join(d, "meta.json")))
     if meta.get("part") == SWF_KEY:
         return swf_replay(ck, d, meta)
+    if meta.get("part") == SWR_KEY:
+        return swr_replay(ck, d, meta)
     ck.model_check(SPEC, "CircuitMapMC", "CircuitMapMC.cfg", "CircuitMap (replay sanity run)",
                    constants=dict(universe_consts([1], [2, 3], 2, 2, 1), Relaxed="{}", MaxOps=3, MaxCrash=1, MaxFail=1),
                    name="mc_replay", timeout=600, workers=4)
@@ -279,6 +293,9 @@ def run(ck):
     # ---------------------------------------------------------------- (f)-(h) switch-level forwarding path
     if "swfwd" not in skip:
         switch_forward(ck, thorough)
+    # ---------------------------------------------------------------- (i)-(k) switch-level response path
+    if "swresp" not in skip:
+        switch_response(ck, thorough)
     # ---------------------------------------------------------------- (e) anomalies outside the assumptions
     if thorough and "anomaly" not in skip:
         anomalies(ck)
@@ -520,6 +537,196 @@ def swf_replay(ck, d, meta):
     describe(ck)
 
 
+# ------------------------------------------------------------------------------------------------
+# Switch-level response path: spec/CircuitMap/SwitchResponse{,MC,Gen,Trace}, executor TestVerifC07SwitchResponse
+SWR_KEY = "switchresp"
+SWR_INVS = "AtMostOneResponse OneQueued NotLost ClosingQueued LogIsPrefix PurgedExact"
+SWR_SHOW = ("a", "k", "cp", "co", "cl", "rs", "pk", "mb", "un", "lv", "up", "lg", "psf", "dn", "tk", "err", "note")
+
+
+def swr_consts(n, nout, nhalf=1):
+    return {"N": n, "OutChans": tla_set(range(1, nout + 1)), "NHalf": nhalf, "ResCheck": '"open"', "Unclaimed": '"clear"'}
+
+
+def swr_execute(ck, sched, n, nout, name, nhalf=1):
+    res = ck.go_test("./htlcswitch/", "^TestVerifC07SwitchResponse$", HARNESS,
+                     env={"VERIF_C07_RESP": sched, "VERIF_C07_RESP_N": n, "VERIF_C07_RESP_OUT": nout,
+                          "VERIF_C07_RESP_HALF": nhalf, "VERIF_PAR": 4},
+                     name=name, timeout=900,
+                     extra_overlay=({"htlcswitch/circuit_map.go": os.environ["VERIF_C07_OVERLAY"]}
+                                    if os.environ.get("VERIF_C07_OVERLAY") else None))
+    p = os.path.join(res["dir"], "trace_resp.ndjson")
+    if not os.path.exists(p) or os.path.getsize(p) == 0:
+        raise Inconclusive("switch-level response executor produced no trace:\n" + res["out"][-3000:])
+    return res, core.read_ndjson(p)
+
+
+def swr_validate(ck, recs, consts, name, expect_ok=True, sched_dir=None):
+    p = os.path.join(ck.out, name + ".ndjson")
+    core.write_ndjson(p, recs)
+    v = ck.validate(SPEC, "SwitchResponseTrace", "SwitchResponseTrace.cfg", p, constants=consts, name=name)
+    if v["ok"] or not expect_ok:
+        return v
+    line = v["line"] or 1
+    a, b = core.slice_trace(recs, line, is_reset)
+    bad = recs[min(line - 1, len(recs) - 1)]
+    inv = (v["invariant"] or "deadlock").replace("invariant ", "")
+    if inv == "ConformNote":
+        raise Inconclusive("switch-level response executor could not follow a schedule that conformed so far "
+                           "(harness problem): %s" % str(bad)[:500])
+    one = os.path.join(ck.out, name + "_failing_trace.ndjson")
+    core.write_ndjson(one, recs[a:b])
+    files = {"trace.ndjson": one, "meta.json": write_meta(ck, name, consts, {}, None)}
+    meta = json.load(open(files["meta.json"]))
+    meta["part"] = SWR_KEY
+    json.dump(meta, open(files["meta.json"], "w"))
+    plan = recs[a].get("plan")
+    if sched_dir and plan and os.path.exists(os.path.join(sched_dir, plan)):
+        files["schedule.ndjson"] = os.path.join(sched_dir, plan)
+    show = {k: bad.get(k) for k in SWR_SHOW}
+    ck.violation("%s:%s:%s" % (SWR_KEY, inv, bad.get("a")),
+                 "the real Switch deviates from spec/CircuitMap/SwitchResponse (%s) at step %d of schedule %s: %s - "
+                 "a settle/fail that the switch accepted (from an outgoing forwarding package or as an on-chain "
+                 "resolution message) must stay queued for the incoming link across restarts and link flaps until "
+                 "that link commits it, and must reach the incoming channel at most once"
+                 % (v["invariant"], line - a - 1, plan, json.dumps(show)),
+                 files=files, text="\n".join(json.dumps(r) for r in recs[a:b]) + "\n" + (v["cex"] or ""))
+    return v
+
+
+def swr_controls(ck, recs, consts):
+    """Negative controls: corrupt one recorded field of the valid trace."""
+    def one_trace(i):
+        a, b = core.slice_trace(recs, i + 1, is_reset)
+        return copy.deepcopy(recs[a:b]), i - a
+    ctl = []
+    # a stored resolution message is recorded as gone after a restart (= what a start-up that drops it would show)
+    i = next((k for k, r in enumerate(recs) if r["a"] == "Restart" and 1 in r["rs"]), None)
+    if i is not None:
+        t, j = one_trace(i)
+        t[j]["rs"] = [0 for _ in t[j]["rs"]]
+        ctl.append(("the resolution store recorded as empty after a Restart that kept a message", t))
+    # an unclaimed packet is recorded as still queued after the link was bound
+    i = next((k for k, r in enumerate(recs) if r["a"] == "AddLink" and r["mb"] and k > 0 and recs[k - 1]["un"]), None)
+    if i is not None:
+        t, j = one_trace(i)
+        t[j]["un"] = list(t[j - 1]["un"])
+        ctl.append(("the unclaimed queue recorded as not cleared by an AddLink", t))
+    # a second response is recorded in the incoming mailbox
+    i = next((k for k, r in enumerate(recs) if r["a"] in ("OutFwd", "Resolve", "OffChain") and r["mb"]), None)
+    if i is not None:
+        t, j = one_trace(i)
+        t[j]["mb"] = t[j]["mb"] + [t[j]["mb"][0] ^ 1]
+        ctl.append(("a second response of one HTLC recorded in the incoming mailbox", t))
+    if len(ctl) < 2:
+        raise Inconclusive("switch response level: no Restart/AddLink step for the negative controls")
+    for k, (m, t) in enumerate(ctl):
+        v = swr_validate(ck, t, consts, "control_swresp_%d" % k, expect_ok=False)
+        if v["ok"]:
+            raise Inconclusive("negative control accepted (switch response level: %s): trace validation is not binding" % m)
+        ck.cov.setdefault("negative_controls", []).append(
+            dict(mutation="switch response level: " + m, rejected_by=v["invariant"], at_line=v["line"]))
+
+
+def switch_response(ck, thorough):
+    skip = os.environ.get("C07_DEV_SKIP", "").split(",")
+    # ---- (i) model checking + witnesses
+    if "mc" not in skip:
+        # measured (2 workers): 18 998 / 58 961 distinct states, 7 / 10 s; thorough 341 666 states 60 s
+        mcs = [("3 HTLCs (one half-open), 2 outgoing channels", swr_consts(3, 2)),
+               ("3 HTLCs, 2 outgoing channels", swr_consts(3, 2, 0))]
+        if thorough:
+            mcs += [("4 HTLCs (one half-open), 2 outgoing channels", swr_consts(4, 2)),
+                    ("3 HTLCs, 1 outgoing channel", swr_consts(3, 1, 0))]
+        for i, (what, c) in enumerate(mcs):
+            ck.model_check(SPEC, "SwitchResponseMC", "SwitchResponseMC.cfg", "SwitchResponse " + what, constants=c,
+                           name="mc_swresp_%d" % (i + 1), timeout=1500, workers=4)
+        for cfg, want, what in (("SwitchResponseWitLost.cfg", "NotLost",
+                                 "witness: reforwardResolutions looking the circuit up by the wrong key drops a stored "
+                                 "resolution message whose circuit is open"),
+                                ("SwitchResponseWitTwice.cfg", "AtMostOneResponse",
+                                 "witness: an unclaimed queue that is not cleared hands a committed response to the "
+                                 "incoming link again")):
+            r = ck.model_check(SPEC, "SwitchResponseMC", cfg, what, must_hold=False, name="wit_" + want, timeout=300, workers=2)
+            if r.violation != "invariant " + want:
+                raise Inconclusive("%s: expected a violation of %s, got %s" % (what, want, r.violation))
+        ck.cov["invariants"] = ck.cov.get("invariants", []) + [x for x in SWR_INVS.split() if x not in ck.cov.get("invariants", [])]
+    # ---- (j) schedules
+    unis = [(4, 2, 1000, "a"), (5, 3, 500, "b")] if thorough else [(4, 2, 300, "a")]
+    agg = dict(traces=0, steps=0, distinct_schedules=0, distinct_with_restart_or_flap_while_owed=0, step_histogram={},
+               universes=[])
+    for n, nout, num, tag in unis:
+        consts = swr_consts(n, nout)
+        files = ck.generate(SPEC, "SwitchResponseGen", "SwitchResponseGen.cfg", num, 45,
+                            constants=dict(consts, MaxLen=40), name="gen_swresp_" + tag, timeout=600)
+        sched = os.path.dirname(files[0])
+        if (n, nout) == (4, 2):
+            # directed schedules: the ack tick after a replayed package entry met a deleted circuit; a stored
+            # resolution message across two restarts and the purge; unclaimed responses, then link flaps
+            for j, f in enumerate(sorted(glob.glob(os.path.join(SPEC, "repro", "swresp_*.ndjson")))):
+                shutil.copy(f, os.path.join(sched, "b_%d.ndjson" % (9001 + j)))
+        res, recs = swr_execute(ck, sched, n, nout, "exec_swresp_" + tag)
+        # ---- (k) validation
+        ok = True
+        for bi, batch in enumerate(core.split_batches(recs, is_reset, 6_000_000)):
+            v = swr_validate(ck, batch, consts, "val_swresp_%s%d" % (tag, bi), sched_dir=sched)
+            ok = ok and v["ok"]
+        ntr = sum(1 for r in recs if is_reset(r))
+        ck.cov["evaluations"] += len(recs) - ntr
+        seqs, hard = set(), 0
+        a = 0
+        for b in [i for i, r in enumerate(recs) if is_reset(r)][1:] + [len(recs)]:
+            t = recs[a:b]
+            a = b
+            h = core.sha(str([(r["a"], r["k"]) for r in t]))
+            # non-trivial: a restart or a re-add of the link happens while a response is queued (mailbox / unclaimed)
+            if h not in seqs and any(r["a"] in ("Restart", "AddLink") and i > 0 and (t[i - 1]["mb"] or t[i - 1]["un"])
+                                     for i, r in enumerate(t)):
+                hard += 1
+            seqs.add(h)
+        ck.cov["distinct_nontrivial"] += hard
+        agg["traces"] += ntr
+        agg["steps"] += len(recs) - ntr
+        agg["distinct_schedules"] += len(seqs)
+        agg["distinct_with_restart_or_flap_while_owed"] += hard
+        agg["universes"].append("%d HTLCs, %d outgoing channels: %d schedules" % (n, nout, ntr))
+        for k, c in histogram(recs).items():
+            agg["step_histogram"][k] = agg["step_histogram"].get(k, 0) + c
+        ck.cov["switch_response"] = agg
+        if ok:
+            if res["rc"] != 0:
+                raise Inconclusive("switch-level response executor failed although everything it recorded conforms:\n"
+                                   + res["out"][-3000:])
+            ck.cov["traces_validated_against_impl"] += ntr
+            if tag == "a":
+                swr_controls(ck, recs[:6000], consts)
+                i = next((k for k, r in enumerate(recs) if r["a"] == "Restart" and r["un"] and 1 in r["rs"]), None)
+                if i is not None:
+                    keep = ("a", "k", "co", "cl", "rs", "pk", "mb", "un", "lv", "dn")
+                    ck.cov["samples"].append({"switch response level, a restart re-forwards a stored resolution message": [
+                        {k: r[k] for k in keep} for r in recs[max(0, i - 2):i + 2]]})
+
+
+def swr_replay(ck, d, meta):
+    sched = ck.scratch("sched_replay")
+    src = os.path.join(d, "schedule.ndjson")
+    if not os.path.exists(src):
+        raise Inconclusive("no schedule stored in %s" % d)
+    shutil.copy(src, os.path.join(sched, "b_1.ndjson"))
+    consts = meta["constants"]
+    n = int(consts["N"])
+    nout = len([x for x in consts["OutChans"].strip("{}").split(",") if x.strip()])
+    nhalf = int(consts.get("NHalf", 1))
+    ck.model_check(SPEC, "SwitchResponseMC", "SwitchResponseMC.cfg", "SwitchResponse (replay sanity run)",
+                   constants=swr_consts(min(n, 3), min(nout, 2), min(nhalf, 1)), name="mc_replay", timeout=600, workers=4)
+    res, recs = swr_execute(ck, sched, n, nout, "exec_replay", nhalf)
+    ck.cov["evaluations"] += len(recs) - 1
+    ck.cov["traces_validated_against_impl"] += 1
+    v = swr_validate(ck, recs, consts, "val_replay", sched_dir=sched)
+    ck.cov["samples"].append({"replay": d, "accepted": v["ok"]})
+    describe(ck)
+
+
 def anomalies(ck):
     anomaly(ck, "H9:commit-during-inflight-delete",
             "API level (the switch never issues this order): CommitCircuits(k) while DeleteCircuits(k) is "
@@ -546,7 +753,12 @@ def describe(ck):
                       "circuit map over bolt; distinct = distinct step sequences with at least one committed durable write; "
                       "switch level: schedules = sequences of Begin/Route/Abort/HandOver/Take/OutCommit/OutRestart/Stop/Relink/"
                       "SetElig generated by TLC -simulate from SwitchForwardGen (+ one directed schedule) and replayed on a real "
-                      "started Switch; distinct there = distinct schedules in which a link is stopped in the middle of a batch")
+                      "started Switch; distinct there = distinct schedules in which a link is stopped in the middle of a batch; "
+                      "switch response level: schedules = sequences of OffChain/OutFwd/Resolve/ResolveFail/AckTick/AckTickFail/"
+                      "Replay/AddLink/RemoveLink/Take/InCommit/CloseChan/FullyClose/Restart generated by TLC -simulate from "
+                      "SwitchResponseGen (+ three directed schedules) and replayed on a real started Switch over bolt; distinct "
+                      "there = distinct schedules in which a restart or a re-add of the incoming link happens while a response "
+                      "is queued (mailbox or unclaimed queue)")
     ck.cov["trusted_base"] = ["TLC 1.8.0", "CommunityModules Json",
                               "executor projection (LookupCircuit/LookupOpenCircuit over the universe, closed map, "
                               "NumPending/NumOpen, raw contents of the circuit-adds and circuit-keystones buckets)",
@@ -554,7 +766,15 @@ def describe(ck):
                               "park points immediately before/after each transaction = the code's own critical sections",
                               "switch level: mock links of the htlcswitch package play the links (the outgoing ones park the "
                               "forwarder at handleSwitchPacket); the incoming link's batch = un-acked adds of a real forwarding "
-                              "package; projection = LookupCircuit/HasKeystone, the mailboxes' add queues, AckFilter from the DB"]
+                              "package; projection = LookupCircuit/HasKeystone, the mailboxes' add queues, AckFilter from the DB",
+                              "switch response level: the harness plays the outgoing links (writes the settle/fail into a real "
+                              "forwarding package and calls Switch.ForwardPackets), contractcourt (ProcessContractResolution) and "
+                              "the incoming link (the package's mock link: AddLink/RemoveLink, reads its mailbox, commits = package "
+                              "acks + DeleteCircuits + mailbox acks); FetchAllChannels/FetchClosedChannels are harness closures fed "
+                              "from the schedule; a close request for an unknown channel is the barrier through the forwarder "
+                              "goroutine; projection = LookupCircuit/LookupOpenCircuit, the circuit map's closed set, "
+                              "fetchAllResolutionMsg, the packages' SettleFailFilter, the mailbox response queue, "
+                              "mailOrchestrator.unclaimedPackets/liveIndex, Switch.linkIndex, Switch.pendingSettleFails"]
     ck.assumptions += [
         "A1 callers learn of a circuit only from the Adds answer (no Open/Fail/Delete of a key whose commit is in flight)",
         "A2 the memory phase of DeleteCircuits is the point where a key is forgotten (the at-most-once counters reset there)",
@@ -570,6 +790,12 @@ def describe(ck):
         "blocked in routeAsync behind a busy forwarder (Go's select between a free forwarder and a closed quit channel is "
         "random; the model allows both, the schedules take the deterministic ones); one eligible outgoing link at a time; "
         "responses, node restarts (Fails answers) and a failing CommitCircuits transaction are not part of that module",
+        "switch response level (SwitchResponse): the incoming link's commit, DeleteCircuits and acks are one step (a crash "
+        "between them is stopped by the incoming channel's update log - C08); ClosePatient: a channel is not FULLY closed "
+        "while one of its open circuits has an un-acked off-chain response and no stored resolution message; one incoming "
+        "channel, which stays open; an off-chain settle/fail may still arrive while the channel is going to chain; the "
+        "response kind is fixed per HTLC (even: settle, odd: fail); local payments and mailbox-expired adds (hasSource) "
+        "are not part of that module; write failures are modelled for addResolutionMsg and the ack ticker only",
         "at-most-one-response is per process lifetime (the closed set is volatile by design; across a restart the "
         "duplicate is stopped by the incoming channel's update log - C08)",
     ]
